@@ -21,6 +21,10 @@ type Case struct {
 	C2 int    `json:"c2"`
 	L2 int    `json:"l2"`
 	K2 int    `json:"k2"`
+	// Mass > 0: instead of a pair, Mass buffers of the first shape are allocated
+	// and all kept alive; each must be fresh when allocated and must still read
+	// its own stamp after all the others were allocated and stamped.
+	Mass int `json:"mass,omitempty"`
 }
 
 var Types []string
@@ -77,6 +81,9 @@ func Check(c *Case) (res kit.Result) {
 		return
 	}
 	ti := kit.Info(c.T)
+	if c.Mass > 0 {
+		return checkMass(c, ti)
+	}
 	a := kit.AllocAny(c.T, signal.Allocator{Channels: c.C, Length: c.L, Capacity: c.K})
 	fa := checkOne(&res, "first allocation", ti, a, c.C, c.L, c.K)
 	if res.Fail != "" {
@@ -122,10 +129,43 @@ func Check(c *Case) (res kit.Result) {
 	return
 }
 
+func checkMass(c *Case, ti kit.TypeInfo) (res kit.Result) {
+	if c.Mass > 1<<18 || c.C*c.K > 4096 || c.C*c.K == 0 {
+		return
+	}
+	n := c.C * c.K
+	live := make([]kit.AnyBuf, 0, c.Mass)
+	stampOf := func(i, k int) kit.Val { return kit.IV(int64(1 + (i*7+k)%120)) }
+	for i := 0; i < c.Mass; i++ {
+		b := kit.AllocAny(c.T, signal.Allocator{Channels: c.C, Length: c.L, Capacity: c.K})
+		full := checkOne(&res, fmt.Sprintf("allocation #%d of %d live ones", i, c.Mass), ti, b, c.C, c.L, c.K)
+		if res.Fail != "" {
+			return
+		}
+		for k := 0; k < n; k++ {
+			full.Set(k, stampOf(i, k))
+		}
+		live = append(live, full)
+	}
+	for i, full := range live {
+		for k := 0; k < n; k++ {
+			if got := full.Get(k); got.String() != stampOf(i, k).String() {
+				res.Failf("allocation #%d of %d (all kept alive, %s, %d samples each): sample %d reads %s, its stamp is %s - storage shared with another allocation", i, c.Mass, c.T, n, k, got, stampOf(i, k))
+				return
+			}
+		}
+	}
+	res.Class("manyLiveAllocations")
+	if ti.Named {
+		res.Class("namedType")
+	}
+	return
+}
+
 func FP(c *Case) uint64 {
 	h := kit.NewHasher()
 	h.Str(c.T)
-	h.Ints([]int{c.C, c.L, c.K, c.C2, c.L2, c.K2})
+	h.Ints([]int{c.C, c.L, c.K, c.C2, c.L2, c.K2, c.Mass})
 	return h.Sum()
 }
 
@@ -146,6 +186,9 @@ func genShape(t *rapid.T, l string) (C, L, K int) {
 func Gen(t *rapid.T) *Case {
 	c := &Case{T: rapid.SampledFrom(Types).Draw(t, "type")}
 	c.C, c.L, c.K = genShape(t, "a")
+	if kit.Chance(t, "mass", 1, 25) && c.C*c.K > 0 && c.C*c.K <= 512 {
+		c.Mass = rapid.IntRange(2, 3000).Draw(t, "massN")
+	}
 	if rapid.Bool().Draw(t, "sameShape") {
 		c.C2, c.L2, c.K2 = c.C, c.L, c.K
 	} else {
